@@ -230,14 +230,60 @@ def component_records(rec):
     return [rec]
 
 
-def mech_for(rec_name, mesh, monitor, diffslot, opp, unsorted_tri2):
+QUAD_EDGE_DIRECTION = [(0, 1), (1, 2), (3, 2), (0, 3)]   # direction of the reference edge functions of QuadP / QuadN1
+
+
+def predicted_failing_facets(kind_of_defect, mesh, itf):
+    """Model of each *recorded* defect: exactly which interior facets it makes discontinuous (for a generic
+    coefficient vector).  A witness is classified under the recorded mechanism only if the observed failing
+    facets are exactly these; anything else stays unclassified (-> VIOLATION)."""
+    t = np.asarray(mesh.t)
+    t2f, f2t = np.asarray(mesh.t2f), np.asarray(mesh.f2t)
+    out = set()
+    for f in itf:
+        info = []
+        for side in (0, 1):
+            c = f2t[side, f]
+            slot = int(np.nonzero(t2f[:, c] == f)[0][0])
+            info.append((c, slot))
+        if kind_of_defect == "quadn1":
+            # the reference edge functions run 1->0, 1->2, 3->2, 0->3 while the sign rule looks at the facet table
+            # (0,1), (1,2), (2,3), (0,3): after the rule the functions of local edges 1 and 3 point low->high global
+            # index, those of local edges 0 and 2 high->low; discontinuous iff the two sides see slots of different parity
+            if (info[0][1] % 2) != (info[1][1] % 2):
+                out.add(int(f))
+        elif kind_of_defect == "quadp":
+            # odd edge modes change sign when the edge is traversed the other way round
+            dirs = []
+            for c, slot in info:
+                a, b = QUAD_EDGE_DIRECTION[slot]
+                dirs.append((int(t[a, c]), int(t[b, c])))
+            if dirs[0] != dirs[1]:
+                out.add(int(f))
+        elif kind_of_defect == "unsorted-simplex":
+            # several DOFs per facet are laid out along the local direction (a -> b) of mesh.elem.refdom.facets
+            fl = mesh.elem.refdom.facets
+            dirs = []
+            for c, slot in info:
+                loc = list(dict.fromkeys(fl[slot]))
+                dirs.append(tuple(int(t[i, c]) for i in loc))
+            if dirs[0] != dirs[1]:
+                out.add(int(f))
+    return out
+
+
+def mech_for(rec_name, mesh, monitor, diffslot, opp, unsorted_tri2, failing=None, itf=None):
     base = rec_name.split("(")[0]
-    if rec_name.startswith("ElementQuadP(") and int(rec_name[len("ElementQuadP("):-1]) >= 3 and opp > 0:
-        return "quadp-odd-edge-modes-unsigned-on-oppositely-traversed-edges"
-    if base == "ElementQuadN1" and (opp > 0 or diffslot > 0):
-        return "quadn1-sign-rule-disagrees-with-reference-tangents"
-    if unsorted_tri2 and opp > 0:
-        return "second-order-simplex-mesh-unsorted-cells-multi-dof-facets"
+    kind = None
+    if rec_name.startswith("ElementQuadP(") and int(rec_name[len("ElementQuadP("):-1]) >= 3:
+        kind, key = "quadp", "quadp-odd-edge-modes-unsigned-on-oppositely-traversed-edges"
+    elif base == "ElementQuadN1":
+        kind, key = "quadn1", "quadn1-sign-rule-disagrees-with-reference-tangents"
+    elif unsorted_tri2:
+        kind, key = "unsorted-simplex", "second-order-simplex-mesh-unsorted-cells-multi-dof-facets"
+    if kind is not None and failing is not None and itf is not None:
+        if set(int(x) for x in failing) == predicted_failing_facets(kind, mesh, itf):
+            return key
     return f"{monitor}:{base}"
 
 
@@ -290,7 +336,8 @@ def check_mesh_elem(ctx, mc, rec, tag_extra=None):
             if bad.any():
                 j = np.unravel_index(np.argmax(jump / scale), jump.shape)
                 ctx.monitors[monitor]["evaluations"] -= 1
-                ctx.check(monitor, False, mech=mech_for(rec.name, mesh, monitor, diffslot, opp, unsorted_tri2),
+                failing = itf[np.nonzero(bad.any(axis=1))[0]]
+                ctx.check(monitor, False, mech=mech_for(rec.name, mesh, monitor, diffslot, opp, unsorted_tri2, failing, itf),
                           path="cell-side", component=ci, jump=float(jump[j]), scale=float(scale[j]),
                           facet=int(itf[j[0]]), failing=int(bad.sum()), of=int(bad.size), **tag)
     # Morley / Hermite-type: vertex value continuity (1-D Hermite: value and derivative at the shared vertex)
@@ -335,7 +382,8 @@ def check_mesh_elem(ctx, mc, rec, tag_extra=None):
                 if bad.any():
                     j = np.unravel_index(np.argmax(jump / scale), jump.shape)
                     ctx.monitors[mon]["evaluations"] -= 1
-                    ctx.check(mon, False, mech=mech_for(rec.name, mesh, monitor, diffslot, opp, unsorted_tri2),
+                    failing = itf[np.nonzero(bad.any(axis=1))[0]]
+                    ctx.check(mon, False, mech=mech_for(rec.name, mesh, monitor, diffslot, opp, unsorted_tri2, failing, itf),
                               path="facetbasis", component=ci, jump=float(jump[j]), scale=float(scale[j]),
                               facet=int(itf[j[0]]), failing=int(bad.sum()), of=int(bad.size), **tag)
         if diffslot or opp:
@@ -464,7 +512,7 @@ def gen_case(kind):
 
 def line_case(ctx, k):
     """1-D: continuity at the shared vertices (no InteriorFacetBasis in 1-D)."""
-    recs = records_with_claim("line")
+    recs = [r for r in records_with_claim("line") if not r.name.startswith("Vector(")]  # scalar records: same code path
     rec = recs[k % len(recs)]
     rng = ctx.rng()
     if rec.family == "global":
